@@ -183,11 +183,14 @@ func (c *vacCase) run() {
 		marks = append(marks, time.Now())
 		time.Sleep(300 * time.Microsecond)
 	}
+	var snaps []vacSnap
 	var lateCuts []time.Time
 	steps := 4 + c.r.Intn(14)
+	lastVer := map[int]string{}
 	for s := 0; s < steps; s++ {
 		i := c.r.Intn(nw)
 		db, t := dbs[i], tabs[i]
+		stepStart := time.Now()
 		var what string
 		switch op := c.r.Intn(14); {
 		case op >= 12:
@@ -242,6 +245,26 @@ func (c *vacCase) run() {
 		}
 		c.note(fmt.Sprintf("writer %d: %s", i, what))
 		c.st.Count(what)
+		// the version the writer is on now, what it shows, and when (for "versions created at or after the
+		// cutoff read exactly as before", F52)
+		if v, err := sqlh.Query(db, "select s3db_version(?)", t); err == nil && len(v) == 1 {
+			if vb, e := hexDecode(strings.TrimPrefix(v[0][0], "T:")); e == nil {
+				// what the version reads as from the bucket right now (not through the writer's connection, whose
+				// in-memory tree may carry the F24 phantoms), and when the youngest of its versions was created
+				if rows, rerr := readVersionKA(c.bucket, c.epn, string(vb)); rerr == nil {
+					if at, ok := createdAt(c.store, string(vb)); ok {
+						snaps = append(snaps, vacSnap{version: string(vb), rows: rows, at: at})
+						// a version this step committed is dated by its commit, not by the opening of the
+						// connection (F52): vacuum compares that date with its cutoff
+						if string(vb) != lastVer[i] && lastVer[i] != "" && what != "refresh (merge)" && at.Before(stepStart) {
+							c.fail(fmt.Sprintf("step %d (%s) committed version %s, which carries the creation time %s — before the step began (%s)", s, what, vb, at.UTC().Format(time.RFC3339Nano), stepStart.UTC().Format(time.RFC3339Nano)))
+							return
+						}
+					}
+				}
+				lastVer[i] = string(vb)
+			}
+		}
 		tick()
 	}
 	// sometimes the history ends with an insert and its delete on writer 0, and the cutoff is put between the
@@ -386,10 +409,47 @@ func (c *vacCase) run() {
 			c.fail(fmt.Sprintf("%s: the current version refers to deleted objects: %v", stage, d[:min(len(d), 3)]))
 			return false
 		}
+		// every version created at or after the cutoff still reads exactly as it did
+		for _, sn := range snaps {
+			if sn.at.Before(retainedSince) {
+				continue
+			}
+			got, err := readVersionKA(c.bucket, c.epn, sn.version)
+			c.st.Count("retained_versions_reread")
+			if (err != nil || got != sn.rows) && os.Getenv("VAC_TRACE") != "" {
+				fmt.Fprintln(os.Stderr, "CUTOFF", retainedSince.UTC().Format(time.RFC3339Nano), "SNAP", sn.version, sn.at.UTC().Format(time.RFC3339Nano), "err", err)
+				for _, k := range c.store.Keys("p/s3db-rows/root/") {
+					b, _ := c.store.Get(k)
+					fmt.Fprintln(os.Stderr, "  ", k, string(b))
+				}
+				fmt.Fprintln(os.Stderr, "  DANGLING", danglingIn(c.store, "p/s3db-rows/root/merged/", "p/s3db-rows/root/current/"))
+				for _, q := range c.store.Log()[l0:] {
+					if (q.Mutation() || q.Op == "LIST") && !strings.Contains(q.Key, "/node/") {
+						fmt.Fprintln(os.Stderr, "  REQ", q.String())
+					}
+				}
+			}
+			if err != nil || got != sn.rows {
+				c.fail(fmt.Sprintf("%s: version %s, created at or after the cutoff, reads %q (err %v), was %q", stage, sn.version, got, err, sn.rows))
+				return false
+			}
+		}
 		// superseded versions: those created at or after the cutoff are retained and must be complete; older
 		// ones are what vacuum removes (a stale vacuumer does not know the other writer's ones and leaves their
 		// version objects behind — they are history older than the cutoff, not retained versions)
 		if d := danglingSince(c.store, retainedSince, "p/s3db-rows/root/merged/"); len(d) > 0 {
+			if os.Getenv("VAC_TRACE") != "" {
+				fmt.Fprintln(os.Stderr, "CUTOFF", retainedSince.UTC().Format(time.RFC3339Nano), "DANGLING", d)
+				for _, k := range c.store.Keys("p/s3db-rows/root/") {
+					b, _ := c.store.Get(k)
+					fmt.Fprintln(os.Stderr, "  ", k, string(b))
+				}
+				for _, q := range c.store.Log()[l0:] {
+					if q.Mutation() || q.Op == "LIST" {
+						fmt.Fprintln(os.Stderr, "  REQ", q.String())
+					}
+				}
+			}
 			c.fail(fmt.Sprintf("%s: a version created at or after the cutoff refers to deleted objects: %v", stage, d[:min(len(d), 3)]))
 			return false
 		}
@@ -562,7 +622,7 @@ func vacCmd(args []string) int {
 	fs.Parse(args)
 	setKnown(*kn)
 	st := NewStats("vac", *seed)
-	st.Rule = "histories of 4-18 steps by 1-2 writers (inserts, deletes, insert-then-delete and update-and-back so that old and new versions share content-addressed nodes, delete-then-re-insert, multi-row transactions, merging refreshes; entries_per_node in {2,4,4096}, node_cache_entries in {0,16,1000}), then s3db.Vacuum from an old or a new connection with a cutoff in the past, in the future, outside the range of int64 nanoseconds (years 1000, 2262, 2300, 9999), or at one of the instants recorded between the steps; the vacuuming connection is new, a refreshed writer, the only writer unrefreshed, or a stale writer that has not seen the other writer's versions; one vacuum in five runs inside a transaction that changed nothing and is rolled back afterwards; checks: rows unchanged through the vacuuming and a fresh connection, no version object in root/current or root/merged reaches a missing node, exactly the delete markers older than the cutoff are gone and every other entry is byte-for-byte as before, future cutoff leaves no superseded version, a repeated vacuum changes nothing, a further vacuum with a cutoff in the future leaves rows and reachability intact, the table stays writable, every single storage fault inside vacuum with the same connection used afterwards, and EVERY crash point inside vacuum (restore, crash after k mutations, re-open); distinct = distinct history (all non-trivial)"
+	st.Rule = "histories of 4-18 steps by 1-2 writers (inserts, deletes, insert-then-delete and update-and-back so that old and new versions share content-addressed nodes, delete-then-re-insert, multi-row transactions, merging refreshes; entries_per_node in {2,4,4096}, node_cache_entries in {0,16,1000}), then s3db.Vacuum from an old or a new connection with a cutoff in the past, in the future, outside the range of int64 nanoseconds (years 1000, 2262, 2300, 9999), or at one of the instants recorded between the steps; the vacuuming connection is new, a refreshed writer, the only writer unrefreshed, or a stale writer that has not seen the other writer's versions; one vacuum in five runs inside a transaction that changed nothing and is rolled back afterwards; checks: rows unchanged through the vacuuming and a fresh connection, no version object in root/current or root/merged reaches a missing node, exactly the delete markers older than the cutoff are gone and every other entry is byte-for-byte as before, future cutoff leaves no superseded version, every version created at or after the cutoff re-reads exactly as it did, a repeated vacuum changes nothing, a further vacuum with a cutoff in the future leaves rows and reachability intact, the table stays writable, every single storage fault inside vacuum with the same connection used afterwards, and EVERY crash point inside vacuum (restore, crash after k mutations, re-open); distinct = distinct history (all non-trivial)"
 	isChild, from, to := childRange()
 	if !isChild {
 		NewEmitter(*outp+".ops", *outp+".exp").Close()
@@ -651,4 +711,81 @@ func isSuperset(big, small string) bool {
 		n++
 	}
 	return len(have) > n
+}
+
+type vacSnap struct {
+	version string
+	rows    string
+	at      time.Time
+}
+
+// readVersionKA re-reads a version (the JSON list s3db_version() returned) through a read-only open
+// restricted to it and renders the visible rows like `select k,a ... order by k` does
+func readVersionKA(bucket string, epn int, version string) (string, error) {
+	var names []string
+	if err := json.Unmarshal([]byte(version), &names); err != nil {
+		return "", err
+	}
+	if names == nil {
+		names = []string{}
+	}
+	sqlh.NextClient("hist", nil)
+	kvh, err := s3db.OpenKV(context.Background(), s3db.S3Options{Bucket: bucket, Endpoint: sqlh.Endpoint, Prefix: "p", EntriesPerNode: epn, ReadOnly: true, OnlyVersions: names}, "s3db-rows")
+	sqlh.NextClient("", nil)
+	if err != nil {
+		return "", err
+	}
+	cur, err := kvh.Root.Cursor(context.Background())
+	if err != nil {
+		return "", err
+	}
+	if err := cur.Min(context.Background()); err != nil {
+		return "", err
+	}
+	var out []string
+	for {
+		k, v, ok := cur.Get()
+		if !ok {
+			break
+		}
+		if row, _ := v.Value.(*v1proto.Row); row != nil && !row.Deleted {
+			a := "N"
+			if cv, ok := row.ColumnValues["a"]; ok {
+				a = sqlh.Canon(normVal(s3db.FromSQLiteValue(cv.Value)))
+			}
+			out = append(out, sqlh.Canon(normVal(k.(*s3db.Key).Value()))+","+a)
+		}
+		if err := cur.Forward(context.Background()); err != nil {
+			return "", err
+		}
+	}
+	return strings.Join(out, " | "), nil
+}
+
+// createdAt: the oldest creation time among the versions of a version list (all must be retained for the
+// list to stay readable); false when a version object cannot be found
+func createdAt(store *fakes3.Store, version string) (time.Time, bool) {
+	var names []string
+	if json.Unmarshal([]byte(version), &names) != nil || len(names) == 0 {
+		return time.Time{}, false
+	}
+	var oldest time.Time
+	for _, n := range names {
+		b, ok := store.Get("p/s3db-rows/root/current/" + n)
+		if !ok {
+			if b, ok = store.Get("p/s3db-rows/root/merged/" + n); !ok {
+				return time.Time{}, false
+			}
+		}
+		var root struct {
+			Created *time.Time `json:"cr"`
+		}
+		if json.Unmarshal(b, &root) != nil || root.Created == nil {
+			return time.Time{}, false
+		}
+		if oldest.IsZero() || root.Created.Before(oldest) {
+			oldest = *root.Created
+		}
+	}
+	return oldest, true
 }
